@@ -104,6 +104,15 @@ def snapshot():
     return snap
 
 out = {"frame_diff": {}, "b": []}
+fb = None
+if scn.get("b_first"):
+    # both spec objects exist before anything is done with either
+    try:
+        signal.alarm(60)
+        fb = Fandango(scn["b_spec"])
+        signal.alarm(0)
+    except TO:
+        out["b_timeout"] = True
 if scn["with_a"]:
     before = snapshot()
     try:
@@ -132,7 +141,8 @@ import fandango.language.grammar.nodes as nodes
 out["cap_before_b"] = nodes.MAX_REPETITIONS
 try:
     signal.alarm(90)
-    fb = Fandango(scn["b_spec"])
+    if fb is None:
+        fb = Fandango(scn["b_spec"])
     for req in scn["b_requests"]:
         if req[0] == "fuzz":
             random.seed(req[1])
@@ -184,7 +194,7 @@ def gen_scenario(rng):
             reqs.append(["fuzz", rng.randrange(1000), dict(desired_solutions=rng.choice([3, 6]), max_generations=rng.choice([3, 6]), population_size=10)])
         else:
             reqs.append(["parse", rng.choice(b_words)])
-    return {"a_spec": a_spec, "a_activity": acts, "b_spec": b_spec, "b_requests": reqs}
+    return {"a_spec": a_spec, "a_activity": acts, "b_spec": b_spec, "b_requests": reqs, "b_first": rng.random() < 0.4}
 
 
 def scenario_worker(args):
